@@ -193,9 +193,9 @@ func (cfg *Config) VMOpts() []vm.Option {
 		}
 		importer = newLocalImporter(names, cfg.localImportPath)
 	}
-	if importer != nil {
-		opts = append(opts, vm.WithImporter(importer))
-	}
+	// A configuration without importer says so too: a reused VM must not keep
+	// the importer of the configuration it served before
+	opts = append(opts, vm.WithImporter(importer))
 	if cfg.os != nil {
 		opts = append(opts, vm.WithOS(cfg.os))
 	}
